@@ -103,13 +103,55 @@ def _check_case(ctx: Ctx, case: Dict[str, Any], suite: str):
 
     W = case["world"]
     world = sim.World(W)
+    fs_dir = None
+    if case.get("real_fs"):
+        # the REAL FSStoragePlugin in a private directory (this stream uses safe keys only)
+        import shutil
+        from common import OUT_DIR
+        fs_dir = os.path.join(OUT_DIR, f"c05_fs_{os.getpid()}")
+        shutil.rmtree(fs_dir, ignore_errors=True)
+        world.storage = sim.FsStore(fs_dir)
+    try:
+        return _check_case_in(ctx, case, suite, world)
+    finally:
+        if fs_dir:
+            import shutil
+            shutil.rmtree(fs_dir, ignore_errors=True)
+
+
+def _check_case_in(ctx: Ctx, case: Dict[str, Any], suite: str, world):
+    import gen
+    import sim
+    import torch
+    from torchsnapshot import Snapshot
+    from torchsnapshot.flatten import flatten
+    from torchsnapshot.manifest import PrimitiveEntry
+    from torchsnapshot.manifest_utils import is_container_entry
+    from torchsnapshot.serialization import Serializer, string_to_dtype
+    W = case["world"]
+    cur = {"states": case["states"]}
 
     def take(r, pg):
         app = {}
-        for (kd, d) in case["states"][r]:
+        for (kd, d) in cur["states"][r]:
             app[gen.build_key(kd)] = gen.RecStateful(gen.build_tree(d))
         Snapshot.take(ROOT, app, pg=pg, replicated=case["replicated"])
         return {k: flatten(v.sd, prefix=k)[1] for k, v in app.items()}
+
+    if case.get("pre_states"):
+        # an earlier snapshot (committed or abandoned) at the same path left LONGER objects at the same locations
+        cur["states"] = case["pre_states"]
+        with sim.knobs(**case["knobs"]):
+            try:
+                if W == 1:
+                    world.run1(lambda: take(0, None))
+                else:
+                    world.run(take)
+            except Exception:  # noqa
+                pass
+        world.storage.log.clear()
+        cur["states"] = case["states"]
+        ctx.count("retake.same_path")
 
     with sim.knobs(**case["knobs"]):
         if W == 1:
@@ -133,7 +175,13 @@ def _check_case(ctx: Ctx, case: Dict[str, Any], suite: str):
 
     w1 = sim.World(1)
     w1.storage = world.storage
-    manifest = w1.run1(lambda: Snapshot(ROOT).get_manifest())
+    try:
+        manifest = w1.run1(lambda: Snapshot(ROOT).get_manifest())
+    except Exception as e:  # noqa
+        ctx.fail("metadata-unreadable-after-take", f"take returned on every rank but the committed metadata cannot be read: "
+                 f"{type(e).__name__}: {str(e)[:160]}", case, None, suite=suite)
+        ctx.case(suite, {"world": W, "knobs": case["knobs"], "metadata": "unreadable"}, nontrivial=True, key=case)
+        return
     files = world.storage.snapshot_files()
     writes = [e for e in world.storage.writes() if not e["raw"].endswith(".snapshot_metadata")]
     inp = case
@@ -320,6 +368,31 @@ def _check_case(ctx: Ctx, case: Dict[str, Any], suite: str):
              nontrivial=len(writes) > 0, key=case)
 
 
+def _enlarge(d):
+    """the same tree with every tensor replaced by a longer 1-d tensor of the same dtype (more bytes at the same location)"""
+    import copy
+    import gen
+    d = copy.deepcopy(d)
+
+    def go(x):
+        if isinstance(x, dict) and x.get("t") == "tensor":
+            n = gen.numel(x["shape"])
+            es = max(1, len(x["data"]) // n) if n else gen.esize(gen.NAME_DT[x["dtype"]])
+            x["shape"] = [n + 7]
+            x["data"] = (list(x["data"]) + [1] * (es * (n + 7)))[: es * (n + 7)]
+            if x["dtype"] == "bool":
+                x["data"] = [b & 1 for b in x["data"]]
+            x["layout"] = "contig"
+        elif isinstance(x, dict):
+            for v in x.get("items", []):
+                go(v[1] if isinstance(v, list) else v)
+        elif isinstance(x, list):
+            for v in x:
+                go(v)
+    go(d)
+    return d
+
+
 def _gen_case(rng, keys, adversarial: bool) -> Dict[str, Any]:
     import gen
     import sim
@@ -469,6 +542,16 @@ def run(ctx: Ctx):
             ctx.notes.append(f"safe stream stopped early at {i}")
             break
         _check_case(ctx, _gen_case(ctx.rng, SAFE, False), "safe_keys")
+    # re-take at a path where an earlier snapshot left longer objects, through the real filesystem plugin (safe keys)
+    for i in range(ctx.n(25, 250)):
+        if ctx.time_left() < 20:
+            break
+        c = _gen_case(ctx.rng, SAFE, False)
+        c["real_fs"] = True
+        c["pre_states"] = [[[kd, _enlarge(d)] for kd, d in st] for st in c["states"]]
+        if ctx.rng.random() < 0.6:
+            c["knobs"]["nobatch"] = True
+        _check_case(ctx, c, "retake_real_fs")
     for i in range(n_adv):
         if ctx.time_left() < 5:
             ctx.notes.append(f"adversarial stream stopped early at {i}")
